@@ -196,7 +196,10 @@ impl TerminalState {
                     // a file has no screen to clamp to, but a cursor address can take the cursor at most one
                     // screen height below what the file has drawn so far (every row down to the cursor is
                     // allocated by the next character)
-                    let last = crate::TextPane::get_line_count(buf).max(self.get_height()) + self.get_height();
+                    // (a screen is at most 60 rows, as for the resize request; the height itself may be a
+                    // number declared by a SAUCE record)
+                    let screen = self.get_height().min(60);
+                    let last = crate::TextPane::get_line_count(buf).max(screen) + screen;
                     caret.pos.y = caret.pos.y.clamp(0, last);
                 }
                 caret.pos.x = caret.pos.x.clamp(0, (self.get_width() - 1).max(0));
